@@ -310,12 +310,15 @@ func (txn *Txn) Commit() {
 		return
 	}
 
+	simPoint(ptCommit)
 	newRoot := txn.rootTxn.commit()
 	txn.fox.tree.Store(newRoot)
+	simPoint(ptStored)
 
 	// Clear the txn
 	txn.rootTxn = nil
 	txn.fox.mu.Unlock()
+	simPoint(ptUnlocked)
 }
 
 // Abort cancel the transaction. This is a noop for read transactions, already aborted or
@@ -332,9 +335,11 @@ func (txn *Txn) Abort() {
 		return
 	}
 
+	simPoint(ptAbort)
 	// Clear the txn
 	txn.rootTxn = nil
 	txn.fox.mu.Unlock()
+	simPoint(ptUnlocked)
 }
 
 // Snapshot returns a point in time snapshot of the current state of the transaction.
